@@ -248,6 +248,7 @@ class Worker:
             from . import c01_mutators as M
             dom = M.ole_vector_evidence(data)
             dom.update(M.pdf_cycle_evidence(data))
+            dom.update(M.rtf_run_evidence(data))
             return {"id": job.get("id"), "dom": dom, "ev": [], "size": len(data)}
         if op == "seq":
             return self.run_seq(job)
